@@ -138,6 +138,12 @@ func Harness_C04_tunnel_open() {
 	past := time.Now().Add(-time.Hour)
 	mp := &models.PortMapping{ID: "pm1", ListenClientID: c04Listen, TargetClientID: c04Target, SecretKey: "k1", Status: models.MappingStatusActive, ExpiresAt: &future,
 		TargetHost: "127.0.0.1", TargetPort: 80, Protocol: models.ProtocolTCP}
+	// mappings created by activating a connection code carry no secret at all: then no presented
+	// secret is the right one
+	noSecret := verif_Bool()
+	if noSecret {
+		mp.SecretKey = ""
+	}
 	mstate := verif_Choose(5)
 	switch mstate {
 	case 1:
@@ -194,8 +200,14 @@ func Harness_C04_tunnel_open() {
 			req.MappingID = "pm1"
 		case 1:
 			req.MappingID, req.SecretKey = "pm1", "k1"
-		case 2:
-			req.MappingID, req.SecretKey = "pm1", "wrong"
+		case 2: // any other secret of 1-3 characters - also one that merely starts with the right one
+			n := verif_IntRange(1, 3)
+			b := verif_Bytes(n)
+			for _, c := range b {
+				verif_Assume((c >= 'a' && c <= 'z') || (c >= '0' && c <= '9'))
+			}
+			verif_Assume(!(n == 2 && b[0] == 'k' && b[1] == '1'))
+			req.MappingID, req.SecretKey = "pm1", string(b)
 		case 4: // no resume token was ever issued, so none is valid
 			req.MappingID, req.SecretKey, req.ResumeToken = "pm1", "k1", "resume-token"
 		}
@@ -204,7 +216,7 @@ func Harness_C04_tunnel_open() {
 		ack := w.open(rw, id, req)
 
 		authorised := who != 0 && mappingValid &&
-			((cred == 0 && who == c04Listen) || (cred == 1 && (who == c04Listen || who == c04Target)))
+			((cred == 0 && who == c04Listen) || (cred == 1 && !noSecret && (who == c04Listen || who == c04Target)))
 		attached := w.sm.GetTunnelBridgeByConnectionID(id) != nil
 		acked := ack != nil && ack.Success
 		// the branches that join an existing bridge / a tunnel waiting on another node require an
